@@ -9,7 +9,6 @@ import (
 
 	"github.com/IrineSistiana/mosproxy/internal/dnsmsg"
 	"github.com/IrineSistiana/mosproxy/internal/dnsutils"
-	"github.com/IrineSistiana/mosproxy/internal/pool"
 	"github.com/quic-go/quic-go"
 	"github.com/rs/zerolog"
 )
@@ -84,7 +83,9 @@ func (t *QuicTransport) ExchangeContext(ctx context.Context, q []byte) (*dnsmsg.
 	if err != nil {
 		return nil, err
 	}
-	defer pool.ReleaseBuf(payload)
+	// Note: payload is not returned to the buffer pool. The goroutine that performs the exchange keeps
+	// using it after this call has returned early (ctx done); recycling it here would hand its memory to
+	// another request while it is still being written to the connection.
 
 	// 4.2.1.  DNS Message IDs
 	//    When sending queries over a QUIC connection, the DNS Message ID MUST
